@@ -8,6 +8,9 @@ mod sat;
 mod util;
 mod world;
 
+#[global_allocator]
+static A: sat::wire::CountingAlloc = sat::wire::CountingAlloc;
+
 use std::fs::File;
 use std::io::BufWriter;
 
